@@ -48,6 +48,7 @@ type converter struct {
 	varCounter                    int
 	ifCounter                     int
 	forCounter                    int
+	endLabelCounter               int
 	endLabels                     []string
 	funcs                         []funcInfo
 	funcCounter                   int
@@ -880,7 +881,9 @@ func (c *converter) popEndLabel() string {
 }
 
 func (c *converter) nextEndLabel() string {
-	c.endLabels = append(c.endLabels, fmt.Sprintf(":_e%d", len(c.endLabels)))
+	c.endLabels = append(c.endLabels, fmt.Sprintf(":_e%d", c.endLabelCounter))
+	c.endLabelCounter++
+
 	return c.mustCurrentEndLabel()
 }
 
